@@ -618,6 +618,45 @@ Proof.
   eapply inv4_put_live; eauto. rewrite L1. eauto.
 Qed.
 
+(* ---- IPoE DHCPv4 bind / renew ---- *)
+Lemma upd_live_inv1 s i r r2 ls d :
+  inv1 s -> aget i (live s) = Some r -> s_id r2 = s_id r -> inv1 (upd_live s i r2 ls d).
+Proof.
+  intros I L ID. destruct I. constructor; cbn [upd_live store live pend tick applied released used]; auto.
+  - intros k r0. rewrite aget_aput. eqb_case k i; [intros H; inversion H; subst; rewrite ID; eauto|auto].
+  - intros k r0. rewrite aget_aput. eqb_case k i; eauto.
+  - intros j Hj. destruct (i_gone0 j Hj) as (A & B & C). repeat split; auto.
+    rewrite aget_aput_neq; auto. intro; subst. congruence.
+Qed.
+
+Lemma upd_live_inv4 s i r r2 ls d : inv4 s -> aget i (live s) = Some r -> inv4 (upd_live s i r2 ls d).
+Proof. intros I L. unfold upd_live. eapply inv4_put_live; eauto. Qed.
+
+Lemma do_bind4_shape c s i l o s' out :
+  do_bind4 c s i l o = Some (s', out) ->
+  s' = s \/
+  exists r a ls d, aget i (live s) = Some r /\
+    s' = fst (do_ck (upd_live s i (set_bind4 r a l) ls d) i) /\
+    ((s_v4 r = Some a /\ ls = leases s) \/
+     (s_v4 r = None /\ alloc_ok c (leases s) 0 (Some a) = true /\ ls = aput (code 0 a) i (leases s))).
+Proof.
+  unfold do_bind4. destruct (c_proto c); [|intros H; inversion H; auto].
+  destruct (aget i (live s)) as [r|] eqn:L; [|intros H; inversion H; auto].
+  destruct (s_v4 r) as [a|] eqn:V.
+  - intros H. inversion H; subst. right. exists r, a. eexists. eexists. split; [auto|split; [reflexivity|left; auto]].
+  - destruct (alloc_ok c (leases s) 0 o) eqn:OK; try discriminate. destruct o as [a|].
+    + intros H. inversion H; subst. right. exists r, a. eexists. eexists. split; [auto|split; [reflexivity|right; auto]].
+    + intros H. inversion H; auto.
+Qed.
+
+Lemma do_bind4_inv14 c s i l o s' out :
+  inv1 s /\ inv4 s -> do_bind4 c s i l o = Some (s', out) -> inv1 s' /\ inv4 s'.
+Proof.
+  intros (I1 & I4) H. apply do_bind4_shape in H. destruct H as [->|(r & a & ls & d & L & -> & _)]; auto. split.
+  - apply do_ck_inv1. eapply upd_live_inv1; eauto.
+  - apply do_ck_inv4. eapply upd_live_inv4; eauto.
+Qed.
+
 Lemma restore_one_delpend c now f cause store0 s lg k :
   delpend (fst (restore_one c now f cause store0 (s, lg) k)) = delpend s.
 Proof.
@@ -659,6 +698,7 @@ Proof.
   - inversion H. change s' with (fst (s', out)). rewrite <- H1. split; [apply do_relf_inv1|apply do_relf_inv4]; auto.
   - inversion H. change s' with (fst (s', out)). rewrite <- H1. split; [apply do_delretry_inv1|apply do_delretry_inv4]; auto.
   - inversion H. change s' with (fst (s', out)). rewrite <- H1. split; [apply do_giveup_inv1|apply do_giveup_inv4]; auto.
+  - eapply do_bind4_inv14; eauto.
   - inversion H; subst; auto.
   - inversion H. change s' with (fst (s', out)). rewrite <- H1. split; [apply do_crash_inv1; auto|apply do_crash_inv4].
   - inversion H. change s' with (fst (s', out)). rewrite <- H1. split; [apply do_relstop_inv1; auto|apply do_relstop_inv4].
@@ -1078,9 +1118,9 @@ Record inv2 (c : cfg) (s : st) : Prop := {
   j_own : forall k r ad, aget k (live s) = Some r -> In ad (addrs r) -> inpool c ad = true ->
             aget ad (leases s) = Some k;
   k_store : forall k r, aget k (store s) = Some r ->
-            exists r', aget k (live s) = Some r' /\ addrs r' = addrs r;
+            exists r', aget k (live s) = Some r' /\ incl (addrs r) (addrs r');
   k_pend : forall t r, aget t (pend s) = Some r -> effective c s (s_id r) t = true ->
-            exists r', aget (s_id r) (live s) = Some r' /\ addrs r' = addrs r }.
+            exists r', aget (s_id r) (live s) = Some r' /\ incl (addrs r) (addrs r') }.
 
 Lemma inv2_init c : inv2 c init.
 Proof. constructor; cbn; intros; discriminate. Qed.
@@ -1191,12 +1231,12 @@ Proof.
   - intros k r1 ad. rewrite aget_aput. eqb_case k i; [|eauto].
     intros H. inversion H; subst. rewrite set_stamp_addrs. eauto.
   - intros k r1 G. destruct (k_store0 _ _ G) as (r' & GL & E). rewrite aget_aput. eqb_case k i; [|eauto].
-    rewrite L in GL. inversion GL; subst. eexists; split; eauto.
+    rewrite L in GL. inversion GL; subst. eexists; split; [eauto|exact E].
   - intros t r1 G EF. erewrite effective_eq in EF by reflexivity. apply aget_snoc in G.
     destruct G as [G|[_ G]].
     + destruct (k_pend0 _ _ G EF) as (r' & GL & E). rewrite aget_aput. eqb_case (s_id r1) i; [|eauto].
-      rewrite L in GL. inversion GL; subst. eexists; split; eauto.
-    + subst r1. rewrite set_stamp_id, (i_live_id0 _ _ L), aget_aput_eq. eauto.
+      rewrite L in GL. inversion GL; subst. eexists; split; [eauto|exact E].
+    + subst r1. rewrite set_stamp_id, (i_live_id0 _ _ L), aget_aput_eq. eexists; split; [reflexivity|apply incl_refl].
 Qed.
 
 Lemma effective_ord c s i t :
@@ -1210,7 +1250,7 @@ Proof.
   constructor; cbn [fst store live pend leases applied].
   - intros k r1 ad. rewrite aget_aput. eqb_case k i; [|eauto].
     intros H. inversion H; subst. rewrite set_stamp_addrs. eauto.
-  - intros k r1. rewrite !aget_aput. eqb_case k i; [intros H; inversion H; eauto|eauto].
+  - intros k r1. rewrite !aget_aput. eqb_case k i; [intros H; inversion H; eexists; split; [reflexivity|apply incl_refl]|eauto].
   - intros t r1 G EF. destruct (N.eq_dec (s_id r1) i) as [E|NE].
     + exfalso. rewrite effective_ord in EF by auto. cbn [applied] in EF. rewrite E, aget_aput_eq in EF.
       apply i_pend_tick0 in G. apply N.ltb_lt in EF. lia.
@@ -1372,7 +1412,7 @@ Lemma inv2_disjoint c s : inv2 c s -> disjoint_images c (store s).
 Proof.
   intros [] k k' r r' ad G G' IN IN' IP.
   destruct (k_store0 _ _ G) as (r1 & L1 & E1). destruct (k_store0 _ _ G') as (r2 & L2 & E2).
-  rewrite <- E1 in IN. rewrite <- E2 in IN'.
+  apply E1 in IN. apply E2 in IN'.
   pose proof (j_own0 _ _ _ L1 IN IP). pose proof (j_own0 _ _ _ L2 IN' IP). congruence.
 Qed.
 
@@ -1412,6 +1452,41 @@ Proof.
   apply do_done_core_inv2; auto.
 Qed.
 
+Lemma do_bind4_inv2 c s i l o s' out :
+  inv1 s -> inv2 c s -> do_bind4 c s i l o = Some (s', out) -> inv2 c s'.
+Proof.
+  intros I1 I2 H. apply do_bind4_shape in H. destruct H as [->|(r & a & ls & d & L & -> & CASE)]; auto.
+  apply do_ck_inv2; [eapply upd_live_inv1; eauto|].
+  assert (INC : incl (addrs r) (addrs (set_bind4 r a l))).
+  { intros ad IN. apply In_addrs in IN. unfold addrs, optc. cbn [set_bind4 s_v4 s_v6 s_pd].
+    destruct IN as [(x & E1 & E2)|[(x & E1 & E2)|(x & E1 & E2)]]; subst ad.
+    - destruct CASE as [(V & _)|(V & _)]; rewrite V in E1; inversion E1; subst. left. auto.
+    - rewrite E1. apply in_or_app. right. apply in_or_app. left. left. auto.
+    - rewrite E1. apply in_or_app. right. apply in_or_app. right. left. auto. }
+  destruct I1, I2. constructor; cbn [upd_live store live pend leases applied].
+  - intros k r1 ad. rewrite aget_aput. eqb_case k i.
+    + intros H IN IP. inversion H; subst r1. apply In_addrs in IN. cbn [set_bind4 s_v4 s_v6 s_pd] in IN.
+      assert (OLD : forall ad', In ad' (addrs r) -> inpool c ad' = true -> aget ad' ls = Some i).
+      { intros ad' IN' IP'. pose proof (j_own0 _ _ _ L IN' IP') as G.
+        destruct CASE as [(_ & ->)|(_ & OK & ->)]; auto.
+        rewrite aget_aput. eqb_case ad' (code 0 a); auto. }
+      destruct IN as [(x & E1 & E2)|[(x & E1 & E2)|(x & E1 & E2)]]; subst ad.
+      * inversion E1; subst x. destruct CASE as [(V & ->)|(_ & OK & ->)].
+        -- apply (j_own0 _ _ _ L); auto. unfold addrs, optc. rewrite V. left. auto.
+        -- apply aget_aput_eq.
+      * apply OLD; auto. unfold addrs, optc. rewrite E1. apply in_or_app. right. apply in_or_app. left. left. auto.
+      * apply OLD; auto. unfold addrs, optc. rewrite E1. apply in_or_app. right. apply in_or_app. right. left. auto.
+    + intros H IN IP. pose proof (j_own0 _ _ _ H IN IP) as G.
+      destruct CASE as [(_ & ->)|(_ & OK & ->)]; auto.
+      rewrite aget_aput. eqb_case ad (code 0 a); auto.
+      unfold alloc_ok in OK. apply andb_prop in OK. destruct OK as (_ & NM). unfold amem in NM. rewrite G in NM. discriminate.
+  - intros k r1 G. destruct (k_store0 _ _ G) as (r' & GL & E). rewrite aget_aput. eqb_case k i; [|eauto].
+    rewrite L in GL. inversion GL; subst. eexists. split; [reflexivity|]. eapply incl_tran; eauto.
+  - intros t r1 G EF. erewrite effective_eq in EF by reflexivity.
+    destruct (k_pend0 _ _ G EF) as (r' & GL & E). rewrite aget_aput. eqb_case (s_id r1) i; [|eauto].
+    rewrite L in GL. inversion GL; subst. eexists. split; [reflexivity|]. eapply incl_tran; eauto.
+Qed.
+
 Lemma set_dp_inv2 c s d : inv2 c s -> inv2 c (set_dp s d).
 Proof. intros []. constructor; cbn [set_dp store live pend leases applied]; auto. Qed.
 
@@ -1446,6 +1521,7 @@ Proof.
   - inversion H. change s' with (fst (s', out)). rewrite <- H1. apply do_done_inv2; auto.
   - inversion H. change s' with (fst (s', out)). rewrite <- H1. apply do_poison_inv2; auto.
   - inversion H. change s' with (fst (s', out)). rewrite <- H1. apply do_cksf_inv2; auto.
+  - eapply do_bind4_inv2; eauto.
   - inversion H; subst; auto.
   - inversion H. change s' with (fst (s', out)). rewrite <- H1. apply do_crash_inv2; auto.
   - inversion H. change s' with (fst (s', out)). rewrite <- H1. apply do_relstop_inv2; auto.
